@@ -61,6 +61,7 @@ class Path:
         self.trace = []       # human-readable branch decisions
         self.ghost = {}       # misc per-path ghost (python level)
         self.unset_locals = set()
+        self.epoch = '0'      # heap epoch: arrays first touched after an `all_but` havoc are post-havoc symbols
 
     def fork(self):
         q = Path.__new__(Path)
@@ -71,6 +72,7 @@ class Path:
         q.trace = list(self.trace)
         q.ghost = dict(self.ghost)
         q.unset_locals = set(self.unset_locals)
+        q.epoch = self.epoch
         return q
 
     def assume(self, f):
@@ -96,9 +98,9 @@ def harr(p, name, sort=None):
         if name in SPECIAL:
             sort = SPECIAL[name]
         assert sort is not None, name
-        base = z3.Const('H0_' + name, sort)
+        base = z3.Const('H%s_%s' % (p.epoch, name), sort)
         p.heap[name] = base
-        if name.startswith('f:'):
+        if name.startswith('f:') and p.epoch == '0':
             # objects allocated later on this path did not exist at entry: all their fields are unset
             for a in p.allocs:
                 p.assume(z3.Select(base, a) == Val.v_unset)
@@ -112,7 +114,7 @@ def farr(p, f):
 
 def next_ref(p):
     if '$next' not in p.heap:
-        p.heap['$next'] = z3.Int('H0_$next')
+        p.heap['$next'] = z3.Int('H%s_$next' % p.epoch)
         p.assume(p.heap['$next'] > 0)
     return p.heap['$next']
 
